@@ -742,7 +742,14 @@ impl Driver {
         if self.world.log.is_none() {
             return;
         }
-        let ru = self.world.resource_usage();
+        let ru = match self.world.try_resource_usage() {
+            Ok(ru) => ru,
+            Err(msg) => {
+                self.fail("C16", "accessor-panic", format!("resource_usage() panicked after {}: {}", op.short(), msg));
+                self.fail("C05", "accessor-panic", format!("resource_usage() panicked after {}: {}", op.short(), msg));
+                return;
+            }
+        };
         self.probes.c16_checks += 1;
         let n = self.model.name_bytes() as usize;
         let b = self.model.retained_payload_bytes() as usize;
